@@ -515,8 +515,8 @@ pub fn spec() -> PropSpec {
       },
       Check {
         name: "short-strings",
-        rule: "ALL byte strings of length <= 5 (quick) / 7 (thorough) over {00,01,04,18,40,fc,ff} through decoders and consumers",
-        gen: |tier| (0..32).map(|p| json!({"part": p, "parts": 32, "maxlen": if tier.thorough() { 7 } else { 5 }})).collect(),
+        rule: "ALL byte strings of length <= 6 (quick) / 7 (thorough) over {00,01,04,18,40,fc,ff} through decoders and consumers",
+        gen: |tier| (0..32).map(|p| json!({"part": p, "parts": 32, "maxlen": if tier.thorough() { 7 } else { 6 }})).collect(),
         run: run_short,
         min_counts: &[("evaluations", 10_000)],
       },
